@@ -12,6 +12,7 @@ import (
 
 	"github.com/rminnich/go9p"
 	"verif/internal/hx"
+	"verif/internal/model"
 	"verif/internal/rawc"
 	"verif/internal/ref9p"
 	"verif/internal/script"
@@ -301,8 +302,8 @@ func runScript(c *Case, res *result) (err error) {
 
 	// ---- requests that are still executing at the cut
 	var live []*liveFlight
+	creating, using, killing, keys := map[uint32]bool{}, map[uint32]bool{}, map[uint32]bool{}, map[string]bool{}
 	if vs != nil {
-		creating, using, killing, keys := map[uint32]bool{}, map[uint32]bool{}, map[uint32]bool{}, map[string]bool{}
 		for i := range c.Flights {
 			f := &c.Flights[i]
 			m := f.resolve(1000+i, vs.M.Fids)
@@ -401,6 +402,34 @@ func runScript(c *Case, res *result) (err error) {
 			}
 		}
 	}
+	// ---- a burst of independent requests racing with the disconnect
+	if vs != nil && c.Burst > 0 {
+		src, dir, found := uint32(0), false, false
+		for _, u := range FUniverse {
+			if f := vs.M.Fids[u]; f != nil && !f.Opened && !killing[u] && !creating[u] {
+				src, dir, found = u, f.Kind == model.KDir, true
+				break
+			}
+		}
+		if found {
+			var buf []byte
+			for i := 0; i < c.Burst; i++ {
+				m := &ref9p.Msg{Type: ref9p.Twalk, Fid: src, Newfid: uint32(100 + i)}
+				if dir && i%2 == 1 {
+					m.Wname = []string{"x1"} // the implementation answers Rerror: newfid goes away again
+				}
+				m.Tag = vs.C.NextTag()
+				live = append(live, &liveFlight{idx: -1, f: &Flight{Kind: "burst"}, m: m, key: script.Key(m), tag: m.Tag, who: reqWho(vid, m.Tag), state: "burst"})
+				buf = append(buf, ref9p.Encode(m, vs.C.Dotu)...)
+			}
+			if _, err := end.Write(buf); err != nil {
+				return &hangError{"harness: writing the burst: " + err.Error()}
+			}
+			res.labels = append(res.labels, "burst of requests racing with the disconnect")
+			res.effective += c.Burst
+		}
+	}
+
 	var parked []*liveFlight // in release order
 	for _, i := range c.Order {
 		if i >= 0 && i < len(live) && live[i].state == "executing" && !live[i].late {
@@ -483,8 +512,11 @@ func runScript(c *Case, res *result) (err error) {
 		t := tallyLog(S.Log(), vid)
 		nstuck = 0
 		for _, lf := range live {
-			if lf.state != "executing" {
+			if lf.state != "executing" && lf.state != "burst" {
 				continue
+			}
+			if lf.state == "burst" && k.count(lf.who, "recv.dispatch") == 0 {
+				continue // never read by the server (its writer failed first and closed the transport)
 			}
 			fin := k.count(lf.who, "respond.unlinked") > 0 && (!t.entered[lf.tag] || t.done[lf.tag])
 			if fin {
@@ -566,7 +598,7 @@ func runScript(c *Case, res *result) (err error) {
 	touched := map[int]bool{}
 	risky := false
 	for _, lf := range live {
-		if lf.state == "executing" {
+		if lf.state == "executing" || lf.state == "burst" {
 			for _, x := range t.byTag[lf.tag] {
 				touched[x] = true
 			}
